@@ -1129,11 +1129,6 @@ pub fn bvar_strategy() -> impl Strategy<Value = BVar> {
         2 => (s(), "-?[0-9]{1,30}").prop_map(|(sort, text)| BVar::ConstText { kind: 'd', sort, text }),
         1 => s().prop_map(|sort| BVar::ConstText { kind: 'd', sort, text: "-".into() }),
         2 => (s(), "[0-9a-fA-F]{1,40}").prop_map(|(sort, text)| BVar::ConstText { kind: 'h', sort, text }),
-        // candidate strings on which the validating constructors have to decide
-        2 => (s(), prop_oneof![Just('b'), Just('d'), Just('h')], "[0-9a-fA-F-]{1,10}")
-            .prop_map(|(sort, kind, text)| BVar::ConstText { kind, sort, text }),
-        1 => (s(), prop_oneof![Just('b'), Just('d'), Just('h')], "[0-2]{1,6}|[ -~]{1,4}|[0-9]{0,3}[²³٣]")
-            .prop_map(|(sort, kind, text)| BVar::ConstText { kind, sort, text }),
         2 => (s(), prop_oneof![Just("one"), Just("ones"), Just("zero")])
             .prop_map(|(sort, k)| BVar::ConstSimple { kind: k.into(), sort }),
         1 => s().prop_map(BVar::Input),
@@ -1148,6 +1143,28 @@ pub fn bvar_strategy() -> impl Strategy<Value = BVar> {
             .prop_map(|(k, value)| BVar::Output { kind: k.into(), value }),
         2 => proptest::collection::vec(s(), 1..=5).prop_map(BVar::Justice),
     ]
+}
+
+/// Constant nodes whose text is only a *candidate*: the validating constructors have to decide
+/// whether it is in the domain (C03).
+pub fn bline_candidate_const_strategy() -> impl Strategy<Value = BLine> {
+    (
+        id_strategy(),
+        id_strategy(),
+        prop_oneof![Just('b'), Just('d'), Just('h')],
+        prop_oneof![
+            3 => "[0-9a-fA-F-]{1,10}",
+            1 => "[0-2]{1,6}",
+            1 => "[ -~]{1,4}",
+            1 => "[0-9]{0,3}[²³٣]",
+        ],
+    )
+        .prop_map(|(id, sort, kind, text)| BLine::Node {
+            id,
+            var: BVar::ConstText { kind, sort, text },
+            symbol: None,
+            comment: None,
+        })
 }
 
 pub fn bline_strategy() -> impl Strategy<Value = BLine> {
